@@ -42,9 +42,13 @@ type subLog struct {
 	inside   atomic.Int32
 	direct   atomic.Value // string: first violation seen from inside a callback
 	unsub    func()
+	lineKind string // osub | wsub | csub for the subscription variants ("" = the round's default)
+	meta     string // extra fields of the line after <final> (condition code, ...)
+	callNo   int    // OnUpdateWithContext: number of the running callback (callbacks never overlap)
 }
 
 type round struct {
+	extra []string // further request lines of the round (reads)
 	clock atomic.Int64
 	mu    sync.Mutex
 	subs  []*subLog
@@ -135,8 +139,18 @@ func (s *subLog) line(kind, final string) string {
 		act = "unsubbed"
 	}
 
+	if s.lineKind != "" {
+		kind = s.lineKind
+	}
+	if s.meta != "" {
+		final += " " + s.meta
+	}
+
 	return strings.TrimSpace(kind + " " + act + " " + final + " " + strings.Join(toks, " "))
 }
+
+// ev records one stamped event of a subscription outside a callback body (setup, teardown, context subscription).
+func (rd *round) ev(s *subLog, tok string) { s.add(rd.clock.Add(1), tok) }
 
 // ---- the rounds ------------------------------------------------------------------------------------------------
 
@@ -565,7 +579,8 @@ var curCtx = &judgeCtx{}
 func isLogLine(op string) bool {
 	f := strings.Fields(op)
 
-	return len(f) > 0 && (f[0] == "vsub" || f[0] == "ssub" || f[0] == "sref" || f[0] == "vhist")
+	return len(f) > 0 && (f[0] == "vsub" || f[0] == "ssub" || f[0] == "sref" || f[0] == "vhist" ||
+		f[0] == "osub" || f[0] == "wsub" || f[0] == "csub" || f[0] == "rread")
 }
 
 // sideFile, in the stress child, receives every failure as it is found (one JSON object per line).
@@ -628,6 +643,12 @@ func judgeLogLine(r *hx.Run, line string) string {
 		c.hist, c.has = f[1:], true
 
 		return "ok"
+	}
+	switch f[0] {
+	case "osub", "wsub", "csub", "rread":
+		judgeVariantLine(r, c, f, line)
+
+		return "accept"
 	}
 	if len(f) < 3 {
 		return "bad-op"
@@ -769,6 +790,9 @@ func emitRound(r *hx.Run, kind, histLine string, rd *round, lineKind, final stri
 			mid = true
 		}
 	}
+	for _, line := range rd.extra {
+		r.Line(line, judgeLogLine(r, line))
+	}
 	r.Count("stress:" + kind + ":rounds")
 	if mid {
 		r.Count("stress:" + kind + ":rounds-with-midstream-subscription")
@@ -789,6 +813,8 @@ func stressOne(r *hx.Run, kind string, seed uint64) bool {
 		return stressEvent(r, rng)
 	case "dset":
 		return stressDerivedSet(r, rng)
+	case "varx":
+		return stressVarx(r, rng)
 	case "crowd-var", "crowd-set", "crowd-event", "crowd-dset":
 		crowd = rng.Range(40, 80)
 		defer func() { crowd = 0 }()
@@ -830,7 +856,7 @@ func runStressLines(r *hx.Run, op string) {
 func runStress(r *hx.Run) {
 	rounds := 4000 * r.Scale
 	kinds := []string{"var", "set", "dset", "var", "crowd-var", "set", "event", "dset", "crowd-set", "var", "set", "crowd-event",
-		"var", "set", "dset", "crowd-var", "event", "set", "crowd-dset", "var"}
+		"var", "set", "dset", "crowd-var", "event", "set", "crowd-dset", "var", "varx", "varx", "varx", "varx", "varx"}
 	for i := 0; i < rounds; i++ {
 		seed := r.Rng.U64()
 		kind := kinds[i%len(kinds)]
